@@ -428,12 +428,23 @@ def check_builders(ctx):
         xmax, zmax = xmin + float(rng.uniform(1e-3, 0.03)), zmin + float(rng.uniform(1e-3, 0.03))
         px = float(rng.uniform(0.2e-3, 1e-3))
         gconf = {"grid": {"xmin": xmin, "xmax": xmax, "zmin": zmin, "zmax": zmax, "pixel_size": px}}
+        # the y extent is optional, each bound on its own (a missing bound is 0)
+        yvar = ["none", "ymin", "ymax", "both"][_ % 4]
+        ylo, yhi = -float(rng.uniform(1e-3, 5e-3)), float(rng.uniform(1e-3, 5e-3))
+        if yvar in ("ymin", "both"):
+            gconf["grid"]["ymin"] = ylo
+        if yvar in ("ymax", "both"):
+            gconf["grid"]["ymax"] = yhi
+        want_ymin, want_ymax = gconf["grid"].get("ymin", 0.0), gconf["grid"].get("ymax", 0.0)
+        gkeep = copy.deepcopy(gconf)
         gr = native.grid_from_conf(gconf)
         cj = {"op": "grid_from_conf", "conf": gconf}
         ctx.case(("grid", repr(gconf)), True)
-        if not (gr.xmin == xmin and gr.xmax == xmax and gr.zmin == zmin and gr.zmax == zmax and gr.ymin == 0.0 and gr.ymax == 0.0
-                and gr.numx == round((xmax - xmin + px) / px) and gr.numz == round((zmax - zmin + px) / px)):
-            ctx.violate("grid_from_conf does not carry the configured values", cj, {"kind": "grid_from_conf"})
+        ctx.count("grid_y:" + yvar)
+        if not (gr.xmin == xmin and gr.xmax == xmax and gr.zmin == zmin and gr.zmax == zmax and gr.ymin == want_ymin and gr.ymax == want_ymax
+                and gr.numx == round((xmax - xmin + px) / px) and gr.numz == round((zmax - zmin + px) / px)
+                and gr.numy == (round((want_ymax - want_ymin + px) / px) if want_ymax != want_ymin else 1) and gconf == gkeep):
+            ctx.violate(f"grid_from_conf does not carry the configured values (y bounds configured: {yvar}; got ymin={gr.ymin}, ymax={gr.ymax}, numy={gr.numy})", cj, {"kind": "grid_from_conf"})
         # examination objects
         wall = lambda z: {"xmin": -0.01, "xmax": 0.02, "z": z, "numpoints": int(rng.integers(2, 9))}
         solid = {"longitudinal_vel": vl, "transverse_vel": vt, "density": rho, "state_of_matter": "solid"}
